@@ -187,7 +187,7 @@ theorem swap_keep (ext : Nat → Nat) (m : Mgr) (h : ReorderInv ext m) (xa ya : 
   exact swapPublic_keep (swapOK ext) m xa ya ⟨mg, hrun, hg, hrel⟩
 
 /-- `reorder(bdd, order)` with ANY dictionary, for every recorded schedule -/
-theorem reorderTo_keep' (ext : Nat → Nat) (m : Mgr) (h : ReorderInv ext m) (o : List (String × Int)) :
+theorem reorderTo_keepR (ext : Nat → Nat) (m : Mgr) (h : ReorderInv ext m) (o : List (String × Int)) :
     KeepOr SchedErr (fun m' => ReorderInv ext m' ∧ ReorderRel ext m m') (reorder (some o) m) :=
   (reorderTo_keep (swapOK ext) o m h).mono (fun _ hp => ⟨hp.1, hp.2.1⟩)
 
@@ -281,7 +281,7 @@ theorem reorder_step (m : Mgr) (ext : Nat → Nat) (h : Good2 m ext) (op : UOp2)
   rcases hop with ⟨sch, x, y, rfl⟩ | ⟨sch, rfl⟩ | ⟨sch, o, rfl⟩
   · exact good2_of_reorder m ext h sch _ _ (swap_keep ext _ (h.reorderInv sch) x y) hg
   · exact good2_of_reorder m ext h sch _ _ (sift_keep ext _ (h.reorderInv sch)) hg
-  · exact good2_of_reorder m ext h sch _ _ (reorderTo_keep' ext _ (h.reorderInv sch) o) hg
+  · exact good2_of_reorder m ext h sch _ _ (reorderTo_keepR ext _ (h.reorderInv sch) o) hg
 
 /-- what the reordering relation means for a held reference -/
 theorem held2_of_rel {m m' : Mgr} {ext : Nat → Nat} (h : Good2 m ext) (h' : Good2 m' ext)
